@@ -895,3 +895,102 @@ Proof.
     unfold dbl_val. unfold d. now rewrite f64_roundtrip.
 Qed.
 End FloatTokens.
+
+(* ------------------------------------------------------------------------- *)
+(* Part 6: single dots.  The checker looks for the left neighbour of a range   *)
+(* with strstr(.., "..."): a text in which every '.' is followed by another     *)
+(* character that is no '.' cannot contain or complete an ellipsis.             *)
+Inductive sdots : str -> Prop :=
+| sd_nil : sdots []
+| sd_other c r : c <> 46 -> sdots r -> sdots (c :: r)
+| sd_dot c r : c <> 46 -> sdots (c :: r) -> sdots (46 :: c :: r).
+
+Lemma nodot_sdots t : Forall (fun c => c <> 46) t -> sdots t.
+Proof. induction 1; constructor; assumption. Qed.
+
+Lemma sdots_app a b : sdots a -> sdots b -> sdots (a ++ b).
+Proof.
+  intros Ha Hb. induction Ha as [|c r Hc Hr IH|c r Hc Hr IH]; cbn [app] in *.
+  - exact Hb.
+  - now constructor.
+  - now apply sd_dot.
+Qed.
+
+Lemma sdots_dot r : r <> [] -> hd0 r <> 46 -> sdots r -> sdots (46 :: r).
+Proof. destruct r as [|c r]; [contradiction|]. rewrite hd0_cons. intros _ Hc Hr. now apply sd_dot. Qed.
+
+Lemma dig_nodot ds : Forall dig ds -> Forall (fun c => c <> 46) ds.
+Proof. intros H. eapply Forall_impl; [|exact H]. intros a Ha. apply isdigit_spec in Ha. lia. Qed.
+
+Lemma xdig_nodot ds : Forall xdig ds -> Forall (fun c => c <> 46) ds.
+Proof.
+  intros H. eapply Forall_impl; [|exact H]. intros a Ha. unfold xdig, isxdigit, isdigit, in_range in Ha. lia.
+Qed.
+
+Lemma hextext_sdots neg lead frac ex : lead = 48 \/ lead = 49 -> Forall xdig frac ->
+  sdots (hextext neg lead frac ex).
+Proof.
+  intros Hl Hfr. unfold hextext.
+  destruct (print_exp_shape ex) as (sgc & Ee & Hsgc).
+  assert (Hp : sdots (112 :: print_exp ex)).
+  { apply nodot_sdots. rewrite Ee. constructor; [lia|]. constructor; [lia|].
+    apply dig_nodot, dec_nat_digits. lia. }
+  apply sdots_app; [apply nodot_sdots; destruct neg; repeat constructor; lia|].
+  apply sdots_app; [apply nodot_sdots; repeat constructor; lia|].
+  apply sdots_app; [apply nodot_sdots; repeat constructor; lia|].
+  destruct frac as [|c0 fr]; [exact Hp|].
+  cbn [app]. apply sdots_dot; [discriminate| |].
+  - rewrite hd0_cons. inversion Hfr as [|? ? Hc _]; subst. unfold xdig, isxdigit, isdigit, in_range in Hc. lia.
+  - change (c0 :: fr ++ 112 :: print_exp ex) with ((c0 :: fr) ++ 112 :: print_exp ex).
+    apply sdots_app; [apply nodot_sdots; now apply xdig_nodot|exact Hp].
+Qed.
+
+Lemma fmt_a_sdots d : sdots (fmt_a d).
+Proof.
+  pose proof (fmt_a_text d) as E. cbv zeta in E. rewrite E.
+  assert (Hf : 0 <= d mod 2 ^ 52 < 2 ^ 52) by (apply Z.mod_pos_bound; lia).
+  destruct (frac_digits _ Hf) as (Hx & _ & _).
+  apply hextext_sdots; [destruct (d / 2 ^ 52 mod 2 ^ 11 =? 0); auto|assumption].
+Qed.
+
+Lemma dectext_sdots sg n1 fr c r : okdec sg n1 fr -> c <> 46 -> sdots (c :: r) ->
+  sdots (dectext sg n1 fr ++ c :: r).
+Proof.
+  intros (Hsg & Hn & Hfr) Hc Hr. unfold dectext. rewrite <- !app_assoc.
+  apply sdots_app; [apply nodot_sdots; destruct Hsg as [->| ->]; repeat constructor; lia|].
+  apply sdots_app; [apply nodot_sdots, dig_nodot, dec_nat_digits; lia|].
+  cbn [app]. apply sdots_dot.
+  - destruct fr; discriminate.
+  - destruct Hfr as [|d ds Hd _]; cbn [app]; rewrite hd0_cons; [assumption|]. apply isdigit_spec in Hd. lia.
+  - apply sdots_app; [apply nodot_sdots; now apply dig_nodot|exact Hr].
+Qed.
+
+Lemma flt_text_sdots p d : sdots (flt_text p d).
+Proof.
+  unfold flt_text. destruct (fmt_f_shape p d) as (sg & n1 & fr & -> & Hok).
+  cbn [app]. apply dectext_sdots; [assumption|lia|].
+  constructor; [lia|]. constructor; [lia|].
+  apply sdots_app; [apply fmt_a_sdots|apply nodot_sdots; repeat constructor; lia].
+Qed.
+
+Lemma dbl_text_sdots p d : sdots (dbl_text p d).
+Proof.
+  unfold dbl_text. destruct (fmt_f_shape p d) as (sg & n1 & fr & -> & Hok).
+  cbn [app]. apply dectext_sdots; [assumption|lia|].
+  constructor; [lia|]. constructor; [lia|]. constructor; [lia|].
+  apply sdots_app; [apply fmt_a_sdots|apply nodot_sdots; repeat constructor; lia].
+Qed.
+
+Lemma flt_text_first p d r : exists c tl, flt_text p d ++ r = c :: tl /\ first_ok c.
+Proof.
+  unfold flt_text. destruct (fmt_f_shape p d) as (sg & n1 & fr & -> & Hok). rewrite <- app_assoc.
+  destruct (dec_default sg n1 fr Hok (([32; 40] ++ fmt_a d ++ [41]) ++ r)) as (c & tl & E & _ & _ & _ & _ & Hc).
+  eauto.
+Qed.
+
+Lemma dbl_text_first p d r : exists c tl, dbl_text p d ++ r = c :: tl /\ first_ok c.
+Proof.
+  unfold dbl_text. destruct (fmt_f_shape p d) as (sg & n1 & fr & -> & Hok). rewrite <- app_assoc.
+  destruct (dec_default sg n1 fr Hok ((100 :: [32; 40] ++ fmt_a d ++ [41]) ++ r)) as (c & tl & E & _ & _ & _ & _ & Hc).
+  eauto.
+Qed.
